@@ -6,7 +6,7 @@ Model: `FFVerif/Model/RemapDef.lean` (abstract pulses of `Model/Pulse` plus the 
 `mapIdentifiers`, `remapDef`, `extendDef`; `np.argsort` = stable sort by code points, which is what
 NumPy does for at most 16 strings and for pairwise distinct strings of any number).  Vocabulary
 (`Lemmas/RemapDefAux.lean`): `mapFn mapping s` (the mapping as a partial function; `None` maps every
-identifier to itself), `idFn mapping s` (the same, total), `TotalOn mapping ts` (no `KeyError`),
+identifier to itself), `idFn mapping s` (the same, total), `TotalOn mapping ts` (no missing key),
 `relabel tr f t` (operator `tr t.op`, identifier `f t.id`, the coefficient row of `t`),
 `SortedBy (·.id)` (`Lemmas/PulseAux`), `TimesConsistent` (`_t` empty or what the class computes).
 
@@ -34,7 +34,8 @@ open FFVerif.Model.Pulse FFVerif.Model.RemapDef
 /-! ## `_map_identifiers` -/
 
 /-- `_map_identifiers`: without a mapping the identifiers and `arange`; with a mapping the mapped
-identifiers and a permutation of `0..n-1` that sorts them; `KeyError` iff an identifier is not a
+identifiers and a permutation of `0..n-1` that sorts them; `ValueError` (repair F50; `KeyError`
+before) iff an identifier is not a
 key.  All inputs. -/
 theorem mapIdentifiers_spec (ids : List String) (mapping : Option Dict) :
     (mapping = none → mapIdentifiers ids mapping = .ok (ids, List.range ids.length)) ∧
@@ -43,7 +44,7 @@ theorem mapIdentifiers_spec (ids : List String) (mapping : Option Dict) :
       ∧ (argsortIds (ids.map (idFn (some m)))).Perm (List.range ids.length)
       ∧ SortedBy id (gather (ids.map (idFn (some m))) (argsortIds (ids.map (idFn (some m)))))) ∧
     (∀ m, mapping = some m → (∃ s ∈ ids, m.lookup s = none) →
-      mapIdentifiers ids mapping = .error "KeyError") := by
+      mapIdentifiers ids mapping = .error "ValueError") := by
   refine ⟨?_, ?_, ?_⟩
   · rintro rfl; rfl
   · rintro m rfl h
@@ -134,38 +135,53 @@ theorem remapDef_term_mem (tr : Nat → Nat) (mapping : Option Dict) (p q : TPul
   exact ⟨fun ht => hc.mem_iff.mpr (List.mem_map.mpr ⟨t, ht, rfl⟩),
     fun ht => hn.mem_iff.mpr (List.mem_map.mpr ⟨t, ht, rfl⟩)⟩
 
-/-- **Exactly these calls are rejected by the definition part of `remap`, with these classes, in
-this order**: `KeyError` when a given mapping misses an identifier of the pulse (control or noise);
-otherwise `ValueError` when two control identifiers, or two noise identifiers, coincide after the
-mapping; nothing else. -/
+/-- **Exactly these calls are rejected by the definition part of `remap`; every rejection is a
+`ValueError`** (since the repair F50 also the missing key, a `KeyError` before).  Two causes, checked
+in this order: FIRST a given mapping misses an identifier of the pulse (control or noise; raised by
+the `_map_identifiers` calls); THEN two control identifiers, or two noise identifiers, coincide
+after the mapping.  Nothing else is rejected. -/
 theorem remapDef_errors_iff (tr : Nat → Nat) (mapping : Option Dict) (p : TPulse) (e : String) :
     remapDef tr mapping p = .error e ↔
-      (e = "KeyError" ∧ KeyMissing mapping p) ∨
-      (e = "ValueError" ∧ ¬ KeyMissing mapping p ∧
+      e = "ValueError" ∧
+      (KeyMissing mapping p ∨
+       (¬ KeyMissing mapping p ∧
         ¬ ((p.data.cTerms.map fun t => idFn mapping t.id).Nodup ∧
-           (p.data.nTerms.map fun t => idFn mapping t.id).Nodup)) := by
+           (p.data.nTerms.map fun t => idFn mapping t.id).Nodup))) := by
   rw [remapDef_error_iff, keyMissing_iff, Classical.not_not]
-  rfl
+  constructor
+  · rintro (⟨rfl, h⟩ | ⟨rfl, h⟩)
+    · exact ⟨rfl, Or.inl h⟩
+    · exact ⟨rfl, Or.inr h⟩
+  · rintro ⟨rfl, h | h⟩
+    · exact Or.inl ⟨rfl, h⟩
+    · exact Or.inr ⟨rfl, h⟩
 
-/-- **Identifiers that coincide after the mapping are rejected** (all pulses, all mappings that
-know every identifier): two control operators, or two noise operators, with the same mapped
-identifier ⇒ `ValueError`. -/
+/-- every rejection of `remap` (definition part) is a `ValueError` -/
+theorem remapDef_error_class (tr : Nat → Nat) (mapping : Option Dict) (p : TPulse) (e : String)
+    (h : remapDef tr mapping p = .error e) : e = "ValueError" :=
+  ((remapDef_errors_iff tr mapping p e).mp h).1
+
+/-- **Identifiers that coincide after the mapping are rejected** (all pulses, all mappings): two
+control operators, or two noise operators, with the same mapped identifier ⇒ `ValueError`.  (No
+hypothesis on missing keys any more: those are `ValueError`s as well.) -/
 theorem remap_duplicates_rejected (tr : Nat → Nat) (mapping : Option Dict) (p : TPulse)
-    (hk : ¬ KeyMissing mapping p)
     (hd : ¬ (p.data.cTerms.map fun t => idFn mapping t.id).Nodup ∨
           ¬ (p.data.nTerms.map fun t => idFn mapping t.id).Nodup) :
     remapDef tr mapping p = .error "ValueError" := by
   rw [remapDef_errors_iff]
-  refine Or.inr ⟨rfl, hk, ?_⟩
-  rintro ⟨h1, h2⟩
-  rcases hd with hd | hd
-  · exact hd h1
-  · exact hd h2
+  refine ⟨rfl, ?_⟩
+  by_cases hk : KeyMissing mapping p
+  · exact Or.inl hk
+  · refine Or.inr ⟨hk, ?_⟩
+    rintro ⟨h1, h2⟩
+    rcases hd with hd | hd
+    · exact hd h1
+    · exact hd h2
 
 /-- the same for two listed operators: positions `i ≠ j` of the control (or of the noise)
 Hamiltonian with equal mapped identifiers -/
 theorem remap_duplicates_rejected_at (tr : Nat → Nat) (mapping : Option Dict) (p : TPulse)
-    (hk : ¬ KeyMissing mapping p) (ts : List Term)
+    (ts : List Term)
     (hts : ts = p.data.cTerms ∨ ts = p.data.nTerms) (i j : Nat) (hij : i < j)
     (hj : j < ts.length) (heq : idFn mapping ts[i].id = idFn mapping ts[j].id) :
     remapDef tr mapping p = .error "ValueError" := by
@@ -174,7 +190,7 @@ theorem remap_duplicates_rejected_at (tr : Nat → Nat) (mapping : Option Dict) 
     have := (List.pairwise_iff_getElem.mp h) i j (by simp; omega) (by simpa using hj) hij
     simp only [List.getElem_map] at this
     exact this heq
-  apply remap_duplicates_rejected tr mapping p hk
+  apply remap_duplicates_rejected tr mapping p
   rcases hts with rfl | rfl
   · exact Or.inl hnd
   · exact Or.inr hnd
@@ -245,8 +261,8 @@ theorem remapDef_operator_order_irrelevant (tr : Nat → Nat) (m : Dict) (p p' :
         (remapDef_error_iff tr (some m) p' "ValueError").mpr (Or.inr ⟨rfl, hT', hU'⟩)]
   · have hT' : ¬ (TotalOn (some m) p'.data.cTerms ∧ TotalOn (some m) p'.data.nTerms) :=
       fun h => hT ⟨(htot _ _ hc).mpr h.1, (htot _ _ hn).mpr h.2⟩
-    rw [(remapDef_error_iff tr (some m) p "KeyError").mpr (Or.inl ⟨rfl, hT⟩),
-      (remapDef_error_iff tr (some m) p' "KeyError").mpr (Or.inl ⟨rfl, hT'⟩)]
+    rw [(remapDef_error_iff tr (some m) p "ValueError").mpr (Or.inl ⟨rfl, hT⟩),
+      (remapDef_error_iff tr (some m) p' "ValueError").mpr (Or.inl ⟨rfl, hT'⟩)]
 
 /-- **Times (C02)**: `dt`, the caches `_t`, `_tau` and hence the properties `t` and `tau` of the
 remapped pulse are those of the input; and if the input's time cache is empty or holds what the
@@ -760,176 +776,58 @@ theorem extendDef_additional_order_irrelevant (entries : List Entry) (Ng : Optio
 
 /-! ### the rejections of the definition part -/
 
-/-- **Exactly these inputs are rejected by the definition part of `extend`, with these exception
-classes** (caching options at their defaults):
-* `ValueError` for `FrontReject` (no entry, empty qubit tuple, wrong dimension, different time
-  steps, qubit clash, `N` too small);
-* otherwise nothing at all when the shortcut is taken (a single pulse on a register of its own
-  size is returned as it is: a faulty mapping or additional noise Hamiltonian goes unnoticed);
-* otherwise `KeyError` when a given identifier mapping misses an identifier of its pulse;
-* otherwise `ValueError` when two control operators, or two noise operators, of the mapped pulses
-  get the same identifier (`DuplicateIds`; the repaired check, before the additional noise
-  Hamiltonian is looked at), or for `AdditionalReject`;
-* and nothing else. -/
+/-- **Exactly these inputs are rejected by the definition part of `extend`; every rejection is a
+`ValueError`** (caching options at their defaults; since the repair F50 also the missing key of an
+identifier mapping, a `KeyError` before).  The causes, in the order in which the source checks them:
+1. `FrontReject` (no entry, empty qubit tuple, wrong dimension, a pulse sent through `remap` with
+   repeated identifiers, different time steps, qubit clash, `N` too small);
+2. — nothing at all when the shortcut is taken (a single pulse on a register of its own size is
+   returned as it is: a faulty mapping or additional noise Hamiltonian goes unnoticed) —
+3. `MappingMisses`: a given identifier mapping misses an identifier of its pulse (raised by
+   `_map_identifiers` inside the two loops);
+4. `DuplicateIds`: two control operators, or two noise operators, of the mapped pulses get the same
+   identifier (check after the loops);
+5. `AdditionalReject` (the additional noise Hamiltonian; 4 and 5 are both after 3).
+Nothing else is rejected. -/
 theorem extendDef_errors_iff (entries : List Entry) (Ng : Option Nat) (add : Option Additional)
     (err : String) :
     extendDef entries Ng add = .error err ↔
-      (err = "ValueError" ∧ FrontReject entries Ng) ∨
-      (¬ FrontReject entries Ng ∧ ¬ ShortcutTaken entries (extendN entries Ng) ∧
-        ((err = "KeyError" ∧ MappingMisses entries) ∨
-         (err = "ValueError" ∧ ¬ MappingMisses entries ∧
-           (DuplicateIds entries ∨ AdditionalReject entries add)))) := by
-  have hfront := front_iff entries Ng
-  have hshort := shortcutOf_iff entries (extendN entries Ng)
-  have hmap := allMappingsTotal_iff entries
-  rw [extendDef_eq, frontChecks_eq]
-  by_cases hfb : (entries.isEmpty || entries.any (·.loopFails) || frontRejected entries Ng) = true
-  · have hFR := hfront.mp hfb
-    have hgoal : ∀ R : Except String XPulse, R = Except.error "ValueError" →
-        (R = .error err ↔
-          (err = "ValueError" ∧ FrontReject entries Ng) ∨
-          (¬ FrontReject entries Ng ∧ ¬ ShortcutTaken entries (extendN entries Ng) ∧
-            ((err = "KeyError" ∧ MappingMisses entries) ∨
-             (err = "ValueError" ∧ ¬ MappingMisses entries ∧
-               (DuplicateIds entries ∨ AdditionalReject entries add))))) := by
-      rintro R rfl
-      constructor
-      · intro h
-        injection h with h
-        exact Or.inl ⟨h.symm, hFR⟩
-      · rintro (⟨rfl, _⟩ | ⟨hn, _⟩)
-        · rfl
-        · exact absurd hFR hn
-    by_cases he : entries.isEmpty = true
-    · exact hgoal _ (by simp only [he, if_true])
-    · by_cases hl : entries.any (·.loopFails) = true
-      · exact hgoal _ (by simp only [he, hl, if_true, Bool.false_eq_true, if_false])
-      · have hf : frontRejected entries Ng = true := by
-          simp only [Bool.or_eq_true] at hfb
-          rcases hfb with (h | h) | h
-          · exact absurd h he
-          · exact absurd h hl
-          · exact h
-        exact hgoal _ (by simp only [he, hl, hf, if_true, Bool.false_eq_true, if_false])
-  · have hNFR : ¬ FrontReject entries Ng := fun h => hfb (hfront.mpr h)
-    simp only [Bool.or_eq_true, not_or, Bool.not_eq_true] at hfb
-    obtain ⟨⟨he, hl⟩, hf⟩ := hfb
-    simp only [he, hl, hf, Bool.false_eq_true, if_false]
-    cases hsc : shortcutOf (placedList entries) (extendN entries Ng) with
-    | some pl =>
-      have hST : ShortcutTaken entries (extendN entries Ng) := hshort.mp (by rw [hsc]; rfl)
-      simp only
-      constructor
-      · intro h; cases h
-      · rintro (⟨_, h⟩ | ⟨_, h, _⟩)
-        · exact absurd h hNFR
-        · exact absurd hST h
-    | none =>
-      have hNST : ¬ ShortcutTaken entries (extendN entries Ng) := fun h => by
-        have := hshort.mpr h
-        rw [hsc] at this
-        cases this
-      simp only
-      by_cases hm : AllMappingsTotal (ordered entries)
-      · have hNM : ¬ MappingMisses entries := hmap.mp hm
-        rw [collectTerms_ok _ hm]
-        simp only
-        by_cases hdup : hasDup ((collectedC (ordered entries)).map (·.id)) = true ∨
-            hasDup ((collectedN (ordered entries)).map (·.id)) = true
-        · have hD : DuplicateIds entries := by
-            rcases hdup with hd | hd
-            · exact Or.inl fun hh =>
-                (hasDup_iff _).mp hd ((collectedC_ids_nodup_iff entries).mpr hh)
-            · exact Or.inr fun hh =>
-                (hasDup_iff _).mp hd ((collectedN_ids_nodup_iff entries).mpr hh)
-          have hiff : ((Except.error "ValueError" : Except String XPulse) = .error err) ↔
-              ((err = "ValueError" ∧ FrontReject entries Ng) ∨
-               (¬ FrontReject entries Ng ∧ ¬ ShortcutTaken entries (extendN entries Ng) ∧
-                 ((err = "KeyError" ∧ MappingMisses entries) ∨
-                  (err = "ValueError" ∧ ¬ MappingMisses entries ∧
-                    (DuplicateIds entries ∨ AdditionalReject entries add))))) := by
-            constructor
-            · intro h
-              injection h with h
-              exact Or.inr ⟨hNFR, hNST, Or.inr ⟨h.symm, hNM, Or.inl hD⟩⟩
-            · rintro (⟨_, h⟩ | ⟨_, _, ⟨_, h⟩ | ⟨rfl, _, _⟩⟩)
-              · exact absurd h hNFR
-              · exact absurd h hNM
-              · rfl
-          rcases hdup with hd | hd
-          · simp only [hd, if_true]
-            exact hiff
-          · by_cases hd' : hasDup ((collectedC (ordered entries)).map (·.id)) = true
-            · simp only [hd', if_true]
-              exact hiff
-            · simp only [hd', hd, if_true, Bool.false_eq_true, if_false]
-              exact hiff
-        · simp only [not_or, Bool.not_eq_true] at hdup
-          have hND : ¬ DuplicateIds entries := by
-            rintro (hd | hd)
-            · have := (hasDup_iff _).mpr fun hh => hd ((collectedC_ids_nodup_iff entries).mp hh)
-              rw [hdup.1] at this
-              cases this
-            · have := (hasDup_iff _).mpr fun hh => hd ((collectedN_ids_nodup_iff entries).mp hh)
-              rw [hdup.2] at this
-              cases this
-          simp only [hdup.1, hdup.2, Bool.false_eq_true, if_false]
-          cases add with
-          | none =>
-            rw [addAdditional_none]
-            simp only
-            constructor
-            · intro h; cases h
-            · rintro (⟨_, h⟩ | ⟨_, _, ⟨_, h⟩ | ⟨_, _, h | ⟨H, hH, _⟩⟩⟩)
-              · exact absurd h hNFR
-              · exact absurd h hNM
-              · exact absurd h hND
-              · cases hH
-          | some H =>
-            rw [addAdditional_some]
-            have hrej := addRejected_iff entries H
-            by_cases hr : addRejected (collectedN (ordered entries)) (nDtOf entries) H = true
-            · simp only [hr, if_true]
-              constructor
-              · intro h
-                injection h with h
-                exact Or.inr ⟨hNFR, hNST, Or.inr ⟨h.symm, hNM, Or.inr (hrej.mp hr)⟩⟩
-              · rintro (⟨_, h⟩ | ⟨_, _, ⟨_, h⟩ | ⟨rfl, _, _⟩⟩)
-                · exact absurd h hNFR
-                · exact absurd h hNM
-                · rfl
-            · simp only [hr, Bool.false_eq_true, if_false]
-              constructor
-              · intro h; cases h
-              · rintro (⟨_, h⟩ | ⟨_, _, ⟨_, h⟩ | ⟨_, _, h | h⟩⟩)
-                · exact absurd h hNFR
-                · exact absurd h hNM
-                · exact absurd h hND
-                · exact absurd (hrej.mpr h) hr
-      · have hMM : MappingMisses entries := Classical.not_not.mp fun h => hm (hmap.mpr h)
-        rw [collectTerms_err _ hm]
-        simp only
-        constructor
-        · intro h
-          injection h with h
-          exact Or.inr ⟨hNFR, hNST, Or.inl ⟨h.symm, hMM⟩⟩
-        · rintro (⟨_, h⟩ | ⟨_, _, ⟨rfl, _⟩ | ⟨_, h, _⟩⟩)
-          · exact absurd h hNFR
-          · rfl
-          · exact absurd hMM h
+      err = "ValueError" ∧
+      (FrontReject entries Ng ∨
+       (¬ FrontReject entries Ng ∧ ¬ ShortcutTaken entries (extendN entries Ng) ∧
+         (MappingMisses entries ∨
+          (¬ MappingMisses entries ∧ (DuplicateIds entries ∨ AdditionalReject entries add))))) := by
+  rw [extendDef_error_cases]
+  constructor
+  · rintro (⟨rfl, h⟩ | ⟨h1, h2, ⟨rfl, h⟩ | ⟨rfl, h⟩⟩)
+    · exact ⟨rfl, Or.inl h⟩
+    · exact ⟨rfl, Or.inr ⟨h1, h2, Or.inl h⟩⟩
+    · exact ⟨rfl, Or.inr ⟨h1, h2, Or.inr h⟩⟩
+  · rintro ⟨rfl, h | ⟨h1, h2, h | h⟩⟩
+    · exact Or.inl ⟨rfl, h⟩
+    · exact Or.inr ⟨h1, h2, Or.inl ⟨rfl, h⟩⟩
+    · exact Or.inr ⟨h1, h2, Or.inr ⟨rfl, h⟩⟩
+
+/-- every rejection of `extend` (definition part) is a `ValueError` -/
+theorem extendDef_error_class (entries : List Entry) (Ng : Option Nat) (add : Option Additional)
+    (err : String) (h : extendDef entries Ng add = .error err) : err = "ValueError" :=
+  ((extendDef_errors_iff entries Ng add err).mp h).1
 
 /-- **Identifiers that coincide after the mapping are rejected by `extend`** (all inputs): if two
 control operators, or two noise operators, of the mapped pulses get the same identifier — by given
 mappings or by the default suffixes — the call raises `ValueError`, unless the shortcut returns the
-input unchanged or a faulty mapping raises its `KeyError` first. -/
+input unchanged.  (No hypothesis on missing keys any more: those are `ValueError`s as well.) -/
 theorem extend_duplicates_rejected (entries : List Entry) (Ng : Option Nat)
     (add : Option Additional) (hd : DuplicateIds entries)
-    (hs : ¬ ShortcutTaken entries (extendN entries Ng)) (hm : ¬ MappingMisses entries) :
+    (hs : ¬ ShortcutTaken entries (extendN entries Ng)) :
     extendDef entries Ng add = .error "ValueError" := by
   rw [extendDef_errors_iff]
+  refine ⟨rfl, ?_⟩
   by_cases hf : FrontReject entries Ng
-  · exact Or.inl ⟨rfl, hf⟩
-  · exact Or.inr ⟨hf, hs, Or.inr ⟨rfl, hm, Or.inl hd⟩⟩
+  · exact Or.inl hf
+  · by_cases hm : MappingMisses entries
+    · exact Or.inr ⟨hf, hs, Or.inl hm⟩
+    · exact Or.inr ⟨hf, hs, Or.inr ⟨hm, Or.inl hd⟩⟩
 
 /-- without a front rejection the number of segments used for the additional noise Hamiltonian is
 that of every mapped pulse -/
@@ -1003,14 +901,14 @@ example :
 /-- the finding that led to the repair, now rejected: a mapping that sends two identifiers to the
 same name (real package before the repair: `remap(p, (0,), oper_identifier_mapping={'X': 'Q',
 'Y': 'Q', 'Z': 'Q'})` returned a pulse with `c_oper_identifiers == ['Q', 'Q']`); an instance of
-`remap_duplicates_rejected`, and of the order `KeyError` before `ValueError` -/
+`remap_duplicates_rejected`; the second call misses a key (`ValueError` as well since F50) -/
 example :
     remapDef (fun o => o) (some [("X", "Q"), ("Y", "Q"), ("Z", "Q")])
       { data := ⟨[⟨1, "X", [1, 2]⟩, ⟨2, "Y", [3, 4]⟩], [⟨3, "Z", [1, 1]⟩], [1, 2], 0⟩ }
       = .error "ValueError" ∧
     remapDef (fun o => o) (some [("X", "Q"), ("Y", "Q")])
       { data := ⟨[⟨1, "X", [1, 2]⟩, ⟨2, "Y", [3, 4]⟩], [⟨3, "Z", [1, 1]⟩], [1, 2], 0⟩ }
-      = .error "KeyError" := by decide
+      = .error "ValueError" := by decide
 
 /-- the public setter `pulse.t = …` is copied as it is: `t`, `tau` of the remapped pulse then are
 NOT the cumulative sums (hypothesis `TimesConsistent` of `remapDef_times` is needed) -/
@@ -1059,7 +957,7 @@ example :
       none none = .error "ValueError" := by decide
 
 /-- only the NOISE identifiers coincide (control `X`, `Y` stay apart): rejected as well; and the
-check comes after the `KeyError` of a faulty mapping -/
+second call has a faulty mapping (the missing key is what is raised first; `ValueError` too) -/
 example :
     extendDef
       [{ pulse := xPulse, qubits := [0], bare := true, mapping := some [("X", "X"), ("Z", "Z")] },
@@ -1068,16 +966,16 @@ example :
     extendDef
       [{ pulse := xPulse, qubits := [0], bare := true, mapping := some [("X", "X"), ("Z", "Z")] },
        { pulse := yPulse, qubits := [1], bare := true, mapping := some [("Y", "X")] }]
-      none none = .error "KeyError" := by decide
+      none none = .error "ValueError" := by decide
 
-/-- every class of `extendDef_errors_iff` occurs: front rejection (qubit clash), `KeyError`,
+/-- every cause of `extendDef_errors_iff` occurs: front rejection (qubit clash), a missing key,
 rejection of the additional noise Hamiltonian (identifier of a mapped noise operator), and the
 shortcut that lets a faulty mapping pass -/
 example :
     extendDef [{ pulse := xPulse, qubits := [0], bare := true },
                { pulse := yPulse, qubits := [0], bare := true }] none none = .error "ValueError" ∧
     extendDef [{ pulse := xPulse, qubits := [0], bare := true, mapping := some [("X", "A")] },
-               { pulse := yPulse, qubits := [1], bare := true }] none none = .error "KeyError" ∧
+               { pulse := yPulse, qubits := [1], bare := true }] none none = .error "ValueError" ∧
     extendDef [{ pulse := xPulse, qubits := [0], bare := true },
                { pulse := yPulse, qubits := [1], bare := true }] none
       (some { terms := [(9, some "Z_1", [5])] }) = .error "ValueError" ∧
